@@ -172,6 +172,24 @@ static Verdict check_c13(const Case &c) {
         if (removed[v]) return F(base + "duplicate", "vertex " + std::to_string(v) + " emitted twice");
         removed[v] = true;
     }
+    {   // structure of the chosen set (classes only): internal edges, chosen vertices whose whole neighbourhood is chosen, a cycle inside the set
+        bool internal = false;
+        std::vector<int> outside(s.n, 0), degv(s.n, 0);
+        UnionFind ufc(s.n);
+        bool inner_cycle = false;
+        for (auto &e : s.edges) {
+            degv[e[0]]++; degv[e[1]]++;
+            if (removed[e[0]] && removed[e[1]]) { internal = true; if (!ufc.unite(e[0], e[1])) inner_cycle = true; }
+            if (!removed[e[1]]) outside[e[0]]++;
+            if (!removed[e[0]]) outside[e[1]]++;
+        }
+        bool closed = false, one_out = false;
+        for (int v = 0; v < s.n; v++) if (removed[v] && degv[v] >= 2) { if (outside[v] == 0) closed = true; if (outside[v] == 1) one_out = true; }
+        if (internal) S.cls("chosen-set-has-internal-edge");
+        if (closed) S.cls("chosen-vertex-with-all-neighbours-chosen");
+        if (one_out) S.cls("chosen-vertex-with-one-unchosen-neighbour");
+        if (inner_cycle) S.cls("chosen-set-induces-a-cycle");
+    }
     if (dim == 0 && !out.empty()) return F(base + "forest-nonempty", "forest input but " + std::to_string(out.size()) + " vertices emitted");
     if (!is_forest_without(s, removed)) return F(base + "not-feedback", "removing the emitted vertices leaves a cycle");
     return Verdict::pass();
